@@ -1203,15 +1203,17 @@ class Epoch(object):
         if m < 3:
             x -= 1
             m += 12
-        alpha = iint(x / 100.0)
-        beta = 2 - alpha + iint(alpha / 4.0)
+        beta = 0    # Dates in the Julian calendar need no conversion
+        if not Epoch.is_julian(iint(year), iint(month), iint(day)):
+            alpha = iint(x / 100.0)
+            beta = 2 - alpha + iint(alpha / 4.0)
         b = iint(365.25 * x) + iint(30.6001 * (m + 1.0)) + d + 1722519 + beta
         c = iint((b - 122.1) / 365.25)
         d = iint(365.25 * c)
         e = iint((b - d) / 30.6001)
         d = b - d - iint(30.6001 * e)
         m = (e - 1) if e < 14 else (e - 13)
-        x = (c - 4716) if month > 2 else (c - 4715)
+        x = (c - 4716) if m > 2 else (c - 4715)
         w = 1 if x % 4 == 0 else 2
         n = iint((275.0 * m) / 9.0) - w * iint((m + 9.0) / 12.0) + d - 30
         a = x - 623
